@@ -489,6 +489,12 @@ pub fn run(rep: &mut StageReport, tier: &str, seed: u64) {
             for (sig, detail) in f {
                 v.push(V(format!("accepted-then-abandoned/{}", sig), detail));
             }
+            for (k, idle) in (if thorough { vec![24usize, 17, 70] } else { vec![24usize] }).into_iter().enumerate() {
+                let (_n, f) = tokio::time::timeout(Duration::from_secs(300), super::wirepeers::c11_idle_sibling_streams(server.addr, &certs, idle, (r * 10 + k) as u64)).await.map_err(|_| "watchdog: slow-sibling scenario did not finish in 300 s".to_string())??;
+                for (sig, detail) in f {
+                    v.push(V(sig, detail));
+                }
+            }
             let (n, f) = tokio::time::timeout(Duration::from_secs(120), super::wirepeers::c11_unicode_names(server.addr, &certs)).await.map_err(|_| "watchdog: non-ASCII name registrations did not finish in 120 s".to_string())??;
             unicode_regs += n;
             for (sig, detail) in f {
